@@ -86,6 +86,71 @@ func (r *Repo) FuncDecl(file, recv, name string) *ast.FuncDecl {
 	return nil
 }
 
+// txnCtor: the function that begins a transaction - the callee of Router.Txn's return statement (a method of *Router or a
+// plain function of fox.go), or Router.Txn itself when nothing is delegated. writeIdx is the position, among the arguments
+// of a call, of its first bool parameter (the `write` flag). The facts refer to it by the canonical name "txnWith" /
+// "Router.txnWith" whatever it is called today.
+type txnCtor struct {
+	recv, name string
+	writeIdx   int
+	decl       *ast.FuncDecl
+}
+
+func (r *Repo) txnCtor() *txnCtor {
+	txn := r.FuncDecl("fox.go", "Router", "Txn")
+	if txn == nil || txn.Body == nil {
+		return nil
+	}
+	var call *ast.CallExpr
+	ast.Inspect(txn.Body, func(n ast.Node) bool {
+		if rs, ok := n.(*ast.ReturnStmt); ok && len(rs.Results) == 1 && call == nil {
+			if c, ok := rs.Results[0].(*ast.CallExpr); ok {
+				call = c
+			}
+		}
+		return true
+	})
+	c := &txnCtor{recv: "Router", name: "Txn", decl: txn}
+	if call != nil {
+		switch f := call.Fun.(type) {
+		case *ast.SelectorExpr:
+			if d := r.FuncDecl("fox.go", "Router", f.Sel.Name); d != nil {
+				c = &txnCtor{recv: "Router", name: f.Sel.Name, decl: d}
+			}
+		case *ast.Ident:
+			if d := r.FuncDecl("fox.go", "", f.Name); d != nil {
+				c = &txnCtor{recv: "", name: f.Name, decl: d}
+			}
+		}
+	}
+	pos := 0
+	c.writeIdx = 0
+	if c.decl.Type.Params != nil {
+	outer:
+		for _, f := range c.decl.Type.Params.List {
+			n := len(f.Names)
+			if n == 0 {
+				n = 1
+			}
+			for i := 0; i < n; i++ {
+				if id, ok := f.Type.(*ast.Ident); ok && id.Name == "bool" {
+					c.writeIdx = pos
+					break outer
+				}
+				pos++
+			}
+		}
+	}
+	return c
+}
+
+func (c *txnCtor) key() string {
+	if c.recv == "" {
+		return c.name
+	}
+	return c.recv + "." + c.name
+}
+
 func recvName(e ast.Expr) string {
 	switch t := e.(type) {
 	case *ast.StarExpr:
